@@ -14,6 +14,10 @@ Spec == Init /\ [][Next]_vars
 Sorted == SetToSortSeq(Nodes, <)
 InitGraphs == g \in [Nodes -> SUBSET Nodes] /\ vo = Sorted /\ no = Sorted
 SpecGraphs == InitGraphs /\ [][Next]_vars
+\* four classes: all graphs without self loops x all visiting orders of the vertices x two neighbour orders
+\* (ascending and descending) - the full product of orders is 2.4 million states and does not fit a check
+InitFew == /\ g \in {f \in [Nodes -> SUBSET Nodes] : \A v \in Nodes : v \notin f[v]}
+           /\ vo \in Perms /\ no \in {Sorted, Reverse(Sorted)}
 \* every visiting order yields the strongly connected components, and nothing else
 InvConfluentScc == SccSet(g, vo, no) = TrueSccs(g)
 \* components come out in an order where a component never precedes one it depends on (what
